@@ -1871,14 +1871,14 @@ impl Compiler {
 
                         // Should we export the imported ID?
                         if self.settings.export_top_level_ids && self.frame_stack.len() == 1 {
-                            self.compile_value_export(*import_id, import_register)?;
+                            // The item is exported with the name that it's been assigned to
+                            let export_id = maybe_as.unwrap_or(*import_id);
+                            self.compile_value_export(export_id, import_register)?;
                         }
                     }
                     Node::Str(_) => {
-                        let import_register = if let Some(Node::Id(name, ..)) =
-                            item.name.map(|name| ctx.node(name))
-                        {
-                            self.assign_local_register(*name)?
+                        let import_register = if let Some(name) = maybe_as {
+                            self.assign_local_register(name)?
                         } else {
                             self.push_register()?
                         };
@@ -1886,6 +1886,14 @@ impl Compiler {
 
                         if result.register.is_some() {
                             imported.push(import_register);
+                        }
+
+                        // Should we export the imported item?
+                        if let Some(name) = maybe_as
+                            && self.settings.export_top_level_ids
+                            && self.frame_stack.len() == 1
+                        {
+                            self.compile_value_export(name, import_register)?;
                         }
                     }
                     unexpected => {
@@ -1935,7 +1943,9 @@ impl Compiler {
 
                             // Should we export the imported ID?
                             if self.settings.export_top_level_ids && self.frame_stack.len() == 1 {
-                                self.compile_value_export(*import_id, import_register)?;
+                                // The item is exported with the name that it's been assigned to
+                                let export_id = maybe_as.unwrap_or(*import_id);
+                                self.compile_value_export(export_id, import_register)?;
                             }
                         }
                         Node::Str(string) => {
@@ -1956,6 +1966,14 @@ impl Compiler {
 
                             if result.register.is_some() {
                                 imported.push(import_register);
+                            }
+
+                            // Should we export the imported item?
+                            if let Some(name) = maybe_as
+                                && self.settings.export_top_level_ids
+                                && self.frame_stack.len() == 1
+                            {
+                                self.compile_value_export(name, import_register)?;
                             }
                         }
                         unexpected => {
